@@ -14,12 +14,19 @@
     the in-memory map `(t,col)` ↦ (key ↦ id list); both are kept here as duplicate-free lists of
     `(col, key, id)` entries.  `hashOn` / `btreeOn` are the columns whose *meta key* exists.
     `index_add` / `btree_index_add` write entries whether or not the index exists
-    (the b-tree one even creates the in-memory map with `entry().or_default()`), `create_*_index`
+    (the b-tree one even creates the in-memory map with `entry().or_default()`; their callers
+    guard them with `has_index` / `has_btree_index` where the code does), `create_*_index`
     adds on top of whatever entries are there, `drop_*_index` removes every entry of the column;
   * transactions: `txs id = some tx` while the transaction is in the manager's map (it is removed
     by commit / rollback / cleanup_expired); undo entries hold exactly what the code records;
   * row locks: `locks t row = some {tx, acquiredAt}`, `txLocks tx` = the key list of
-    `tx_locks` (duplicates kept: a re-lock pushes the key again);  `tx_insert` takes NO lock;
+    `tx_locks` (duplicates kept: a re-lock pushes the key again);  `tx_insert` locks the row it
+    inserts (dcf916e8; the result of that `try_lock` is discarded with `let _ =`, so a conflict
+    would leave the new row unlocked and the insert goes on);
+  * `apply_undo_entry` (c322e794) re-adds / swaps hash and b-tree entries only for indexes that
+    exist at rollback time; the undo of an insert removes its entries unconditionally;
+  * the code before those two fixes is kept as `txInsertOld`, `applyUndoTOld`, `rollbackOld`,
+    `stepOld`, `runOld` (used only by the regression `_witness` theorems);
   * non-transactional insert / update / delete_rows are `begin; tx_op; commit | rollback`
     exactly as in the code (so they consume a transaction id and honour row locks);
   * time is the explicit `now` (milliseconds), advanced only by `tick`.
@@ -229,11 +236,14 @@ def txInsert (s : State) (tx t : Nat) (vals : List Int) : State × Res :=
       if vals.length ≠ T.ncols then (s, .err .badInput)
       else
         let id := T.rows.length
+        -- `let _ = lock_manager().try_lock(tx, [(t, id)])`: a conflict is discarded — the row
+        -- stays unlocked and the insert goes on
+        let s1 := if lockBlocked s tx t [id] then s else lockAll s tx t [id]
         let hashE := T.hashOn.foldl (fun es c => idxAdd (c, val vals c, id) es) T.hashE
         let btreeE := T.btreeOn.foldl (fun es c => idxAdd (c, val vals c, id) es) T.btreeE
         let idx := (T.hashOn ++ T.btreeOn).map fun c => (c, val vals c)
         let T' := { T with rows := T.rows ++ [{ alive := true, vals := vals }], hashE := hashE, btreeE := btreeE }
-        (recordUndo (setTable s t T') tx (.inserted t id idx), .okN id)
+        (recordUndo (setTable s1 t T') tx (.inserted t id idx), .okN id)
 
 /-- per-row body of `tx_update` (undo record, index maintenance, slab update) -/
 def updateRow (tx t : Nat) (upd : List (Nat × Int)) (s : State) (i : Nat) : State :=
@@ -320,6 +330,14 @@ def restoreDeletedRow (T : Table) (i : Nat) (old : List Int) : Option (List Row)
   | some r => if !r.alive ∧ old.length = T.ncols then some (T.rows.set i { alive := true, vals := old }) else none
   | none => none
 
+/-- `index_remove; index_add` of one recorded change, only `if has_index(table, column)` -/
+def undoChange (on : List Nat) (i : Nat) (es : List Entry) (p : Nat × Int × Int) : List Entry :=
+  if p.1 ∈ on then idxAdd (p.1, p.2.1, i) (idxRemove (p.1, p.2.2, i) es) else es
+
+/-- `index_add` of one recorded entry, only `if has_index(table, column)` -/
+def undoReadd (on : List Nat) (i : Nat) (es : List Entry) (p : Nat × Int) : List Entry :=
+  if p.1 ∈ on then idxAdd (p.1, p.2, i) es else es
+
 /-- `apply_undo_entry` on one table; returns the table and the number of collected errors -/
 def applyUndoT (T : Table) (u : Undo) : Table × Nat :=
   match u with
@@ -329,14 +347,15 @@ def applyUndoT (T : Table) (u : Undo) : Table × Nat :=
               btreeE := idx.foldl (fun es p => idxRemove (p.1, p.2, i) es) T.btreeE }, 0)
   | .updated _ i old chg =>
     let rr := restoreRow T i old
-    let f := fun (es : List Entry) (p : Nat × Int × Int) => idxAdd (p.1, p.2.1, i) (idxRemove (p.1, p.2.2, i) es)
-    ({ T with rows := rr.getD T.rows, hashE := chg.foldl f T.hashE, btreeE := chg.foldl f T.btreeE },
+    ({ T with rows := rr.getD T.rows
+              hashE := chg.foldl (undoChange T.hashOn i) T.hashE
+              btreeE := chg.foldl (undoChange T.btreeOn i) T.btreeE },
      if rr.isSome then 0 else 1)
   | .deleted _ i old idx =>
     let rr := restoreDeletedRow T i old
     ({ T with rows := rr.getD T.rows
-              hashE := idx.foldl (fun es p => idxAdd (p.1, p.2, i) es) T.hashE
-              btreeE := idx.foldl (fun es p => idxAdd (p.1, p.2, i) es) T.btreeE },
+              hashE := idx.foldl (undoReadd T.hashOn i) T.hashE
+              btreeE := idx.foldl (undoReadd T.btreeOn i) T.btreeE },
      if rr.isSome then 0 else 1)
 
 def Undo.table : Undo → Nat
@@ -558,5 +577,99 @@ def run (s : State) (ops : List Op) : State := ops.foldl (fun s op => (step s op
 def runRes (s : State) : List Op → List Res
   | [] => []
   | op :: ops => (step s op).2 :: runRes (step s op).1 ops
+
+/-! ## the code before c322e794 / dcf916e8 (regression witnesses only)
+
+  `tx_insert` took no row lock; the undo of an update / delete wrote hash AND b-tree entries for
+  every recorded column whether or not that index existed. -/
+
+def txInsertOld (s : State) (tx t : Nat) (vals : List Int) : State × Res :=
+  match gate s tx with
+  | some e => (s, .err e)
+  | none =>
+    match s.tables t with
+    | none => (s, .err .tableNotFound)
+    | some T =>
+      if vals.length ≠ T.ncols then (s, .err .badInput)
+      else
+        let id := T.rows.length
+        let hashE := T.hashOn.foldl (fun es c => idxAdd (c, val vals c, id) es) T.hashE
+        let btreeE := T.btreeOn.foldl (fun es c => idxAdd (c, val vals c, id) es) T.btreeE
+        let idx := (T.hashOn ++ T.btreeOn).map fun c => (c, val vals c)
+        let T' := { T with rows := T.rows ++ [{ alive := true, vals := vals }], hashE := hashE, btreeE := btreeE }
+        (recordUndo (setTable s t T') tx (.inserted t id idx), .okN id)
+
+def applyUndoTOld (T : Table) (u : Undo) : Table × Nat :=
+  match u with
+  | .inserted _ i idx =>
+    ({ T with rows := slabDelete T i
+              hashE := idx.foldl (fun es p => idxRemove (p.1, p.2, i) es) T.hashE
+              btreeE := idx.foldl (fun es p => idxRemove (p.1, p.2, i) es) T.btreeE }, 0)
+  | .updated _ i old chg =>
+    let rr := restoreRow T i old
+    let f := fun (es : List Entry) (p : Nat × Int × Int) => idxAdd (p.1, p.2.1, i) (idxRemove (p.1, p.2.2, i) es)
+    ({ T with rows := rr.getD T.rows, hashE := chg.foldl f T.hashE, btreeE := chg.foldl f T.btreeE },
+     if rr.isSome then 0 else 1)
+  | .deleted _ i old idx =>
+    let rr := restoreDeletedRow T i old
+    ({ T with rows := rr.getD T.rows
+              hashE := idx.foldl (fun es p => idxAdd (p.1, p.2, i) es) T.hashE
+              btreeE := idx.foldl (fun es p => idxAdd (p.1, p.2, i) es) T.btreeE },
+     if rr.isSome then 0 else 1)
+
+def applyUndoOld (acc : State × Nat) (u : Undo) : State × Nat :=
+  match acc.1.tables u.table with
+  | none => (acc.1, acc.2 + 1)
+  | some T => (setTable acc.1 u.table (applyUndoTOld T u).1, acc.2 + (applyUndoTOld T u).2)
+
+def rollbackOld (s : State) (tx : Nat) : State × Res :=
+  match gate s tx with
+  | some e => (s, .err e)
+  | none =>
+    let log := match s.txs tx with | some x => x.undo | none => []
+    let r := log.reverse.foldl applyUndoOld (s, 0)
+    (setTx (release r.1 tx) tx none, if r.2 = 0 then .ok else .err .rollbackFailed)
+
+def finishAutoOld (p : State × Res) (tx : Nat) : State × Res :=
+  match p.2 with
+  | .err e => ((rollbackOld p.1 tx).1, .err e)
+  | r => ((commit p.1 tx).1, r)
+
+def insertOld (s : State) (t : Nat) (vals : List Int) : State × Res :=
+  match s.tables t with
+  | none => (s, .err .tableNotFound)
+  | some T =>
+    if vals.length ≠ T.ncols then (s, .err .badInput)
+    else
+      finishAutoOld (txInsertOld (begin s).1 (begin s).2 t vals) (begin s).2
+
+def updateOld (s : State) (t : Nat) (cond : Cond) (upd : List (Nat × Int)) : State × Res :=
+  match s.tables t with
+  | none => (s, .err .tableNotFound)
+  | some T =>
+    if upd.any (fun p => decide (p.1 ≥ T.ncols)) then (s, .err .columnNotFound)
+    else
+      finishAutoOld (txUpdate (begin s).1 (begin s).2 t cond upd) (begin s).2
+
+def deleteOld (s : State) (t : Nat) (cond : Cond) : State × Res :=
+  match s.tables t with
+  | none => (s, .err .tableNotFound)
+  | some _ =>
+    finishAutoOld (txDelete (begin s).1 (begin s).2 t cond) (begin s).2
+
+def stepOld (s : State) (op : Op) : State × Res :=
+  match op with
+  | .rollback tx => rollbackOld s tx
+  | .txInsert tx t vals => txInsertOld s tx t vals
+  | .insert t vals => insertOld s t vals
+  | .update t cond upd => updateOld s t cond upd
+  | .delete t cond => deleteOld s t cond
+  | op => step s op
+
+def runOld (s : State) (ops : List Op) : State := ops.foldl (fun s op => (stepOld s op).1) s
+
+def runResOld (s : State) : List Op → List Res
+  | [] => []
+  | op :: ops => (stepOld s op).2 :: runResOld (stepOld s op).1 ops
 
 end Neumann.RelTx
